@@ -425,8 +425,10 @@ func catchKeepsOperands(c *core.Ctx, pool *core.Pool, opnames []string, tot *Tot
 	if target == nil {
 		return core.Inconclusivef("witness function not found among %d functions", len(cp.Fns))
 	}
-	if ref[target.ID].Conflict != nil || len(ref[target.ID].Errs) > 0 {
-		return core.Inconclusivef("the reference semantics does not accept the catch witness: %+v", ref[target.ID].Conflict)
+	if recs := findingsOf(cp, target, ref[target.ID]); len(recs) > 0 {
+		// the witness function itself is malformed under the reference semantics: a finding like any other
+		c.Violation(recs[0])
+		return nil
 	}
 	if dev[target.ID].Conflict == nil {
 		return core.Inconclusivef("the deviation CatchKeepsOperands does not predict a depth conflict in the catch witness")
